@@ -196,6 +196,12 @@ FIXED_GAS = ['C', 'CC', 'CCC', 'C=C', 'C#C', 'CC(C)C', 'CC(C)(C)C', 'C1CC1', 'C1
              # six-membered rings with a heteroatom, alone and next to an alternating C6 ring (ring-by-ring perception)
              'C1CCOCC1', 'C1CCOCC1c1ccccc1', 'c1ccccc1C1CCOCC1', 'c1ccncc1', 'C1=NC=CC=C1', 'C1N=CC=CC=1', 'Cc1ccccn1',
              'C1=CC=NC=C1', 'c1cc[nH]c1', 'c1ccoc1', 'c1ncccn1', 'C1=CC=CC=C1C1=CC=CN=C1',
+             # single molecules in which two *different* same-named correction variants match at once
+             'CCC(C)(C)CCC(C)C(C)C', 'C/C=C\\CCC=C(C)C', 'CC(C)C(C)CCC(C)(C)CC',
+             # a C6 ring that RDKit's Kekule form and ring order present DOUBLE-bond first (the second branch of the Benson check)
+             'CC1(C2=C(C3=CC=CC=C3)C=CC=C2)CC1',
+             # alternating rings that are NOT six-membered (the size check of the Benson perception), alone and fused
+             'C1=CC=CC=CC1', 'C1=CC=CC=CC=C1', 'c1ccc2cccc2cc1', 'C1=CC=CCC=C1', 'C1=CC=CC1', 'C1=CC=C1', 'C1=CC=CC=CC=CC=C1',
              # large molecules: more than 1000 (and more than 10 000) raw candidate matches of a generic centre pattern
              'C' * 45, 'C' * 50 + 'O']
 # pool for mixtures (C04): components whose combination exercises same-named corrections, ring order and match caps
